@@ -890,13 +890,16 @@ func (w *streamWriter) Close() error {
 	}
 
 	w.parent.inStream = false
-	for _, pair := range w.parent.afterStream {
+	// take the list first: a deferred *Stream is written through a nested
+	// OpenStream/Close, which must not see (and re-write) the same list
+	pending := w.parent.afterStream
+	w.parent.afterStream = nil
+	for _, pair := range pending {
 		err = w.parent.Put(pair.ref, pair.obj)
 		if err != nil {
 			return err
 		}
 	}
-	w.parent.afterStream = w.parent.afterStream[:0]
 
 	return nil
 }
